@@ -1,6 +1,6 @@
 (* SchedTheorems.v — the statements of property C16 on the model, for EVERY program set accepted by the discipline
    check, every configuration, any number of workers with any scripts, and EVERY schedule (any list of thread ids). *)
-From PG Require Import Common.Tactics Model.Sched Model.SchedDisc Proofs.SchedBase Proofs.SchedMutex Proofs.SchedSound Proofs.SchedSound2 Proofs.SchedSound3 Proofs.SchedSound4.
+From PG Require Import Common.Tactics Model.Sched Model.SchedDisc Proofs.SchedBase Proofs.SchedMutex Proofs.SchedSound Proofs.SchedSound2 Proofs.SchedSound3 Proofs.SchedSound4 Proofs.SchedSound5.
 
 Lemma sumz_zero : forall f ts, (forall th, In th ts -> f th = 0%Z) -> sumz f ts = 0%Z.
 Proof. induction ts; simpl; intros; auto. rewrite H, IHts; auto. Qed.
@@ -142,8 +142,8 @@ Proof.
 Qed.
 
 
-(* ---- all four layers together ---------------------------------------------------------------------------------------- *)
-Record InvAll (g : gstate) (ts : list tstate) : Prop := { ia_1 : Inv ps c g ts; ia_2 : Inv2 ps g ts; ia_3 : GI3 g ts; ia_4 : Inv4 ps g ts }.
+(* ---- all five layers together ---------------------------------------------------------------------------------------- *)
+Record InvAll (g : gstate) (ts : list tstate) : Prop := { ia_1 : Inv ps c g ts; ia_2 : Inv2 ps g ts; ia_3 : GI3 g ts; ia_4 : Inv4 ps g ts; ia_5 : Inv5 ps g ts }.
 
 Lemma InvAll_init : forall ws, InvAll (fst (init_state c ws)) (snd (init_state c ws)).
 Proof.
@@ -171,15 +171,21 @@ Proof.
     + intros t th Hn. apply nth_error_In in Hn. destruct (Hth _ Hn) as [gr [gn [s E]]]. subst.
       destruct (entry_ann ps HD P_init false) as [x [A B]]. exists x. split. unfold cur_a. simpl. exact A.
       eapply sat4_leq; eauto. constructor; simpl; auto; intros; discriminate.
+  - constructor.
+    + constructor; simpl; auto. intros s k r [].
+    + intros t th Hn. apply nth_error_In in Hn. destruct (Hth _ Hn) as [gr [gn [s E]]]. subst.
+      destruct (entry_ann ps HD P_init false) as [x [A B]]. exists x. split. unfold cur_a. simpl. exact A.
+      eapply sat5_leq; eauto. apply sat5_none. reflexivity.
 Qed.
 
 Lemma InvAll_step : forall g ts t g' ts', InvAll g ts -> step1 ps c g ts t = Some (g', ts') -> InvAll g' ts'.
 Proof.
-  intros g ts t g' ts' [H1 H2 H3 H4] Hs. constructor.
+  intros g ts t g' ts' [H1 H2 H3 H4 H5] Hs. constructor.
   - eapply Inv_step; eauto.
   - eapply Inv2_step; eauto.
   - eapply GI3_step; eauto.
   - eapply Inv4_step; eauto.
+  - eapply Inv5_step; eauto.
 Qed.
 
 Theorem InvAll_run : forall ws sched, InvAll (fst (run ps c (init_state c ws) sched)) (snd (run ps c (init_state c ws) sched)).
@@ -199,7 +205,7 @@ Theorem same_group_same_trial : forall ws sched,
   (forall t th i, nth_error (snd st) t = Some th -> r_cur th = Some i ->
      exists x, nth_error (trials_of st) i = Some x /\ t_group x = r_group th).
 Proof.
-  intros. pose proof (InvAll_run ws sched) as HA. fold st in HA. destruct HA as [H1 H2 H3 _].
+  intros. pose proof (InvAll_run ws sched) as HA. fold st in HA. destruct HA as [H1 H2 H3 _ _].
   pose proof (i2_gi _ _ _ H2) as G2. unfold trials_of. fold (T (fst st)). split.
   - intros i j xi xj Hi Hj Pi Pj Hg.
     assert (Hcase : forall i j xi xj, nth_error (T (fst st)) i = Some xi -> nth_error (T (fst st)) j = Some xj ->
@@ -227,7 +233,7 @@ Theorem best_trial_max : forall ws sched,
   (finished (snd st) = true -> forall i x r, nth_error (trials_of st) i = Some x -> t_done x = true -> t_inf x = false -> t_final x = Some r ->
      exists b xb rb, s_best (study0_of st) = Some b /\ nth_error (trials_of st) b = Some xb /\ t_final xb = Some rb /\ (r <= rb)%Z).
 Proof.
-  intros. pose proof (InvAll_run ws sched) as HA. fold st in HA. destruct HA as [H1 H2 H3 _].
+  intros. pose proof (InvAll_run ws sched) as HA. fold st in HA. destruct HA as [H1 H2 H3 _ _].
   pose proof (i2_gi _ _ _ H2) as G2. unfold trials_of, study0_of. fold (T (fst st)). fold (St (fst st)). split.
   - intros b Hb. destruct (g2_best1 _ _ G2 _ Hb) as [xb [rb [A [B [C1 [D _]]]]]]. eauto 8.
   - intros Hfin i x r Hn Hd Hi Hf. destruct (g2_best2 _ _ G2 _ _ _ Hn Hd Hi Hf) as [[t [th [A [B C1]]]] | H]; auto.
@@ -240,7 +246,7 @@ Qed.
 (* C16, one study per name *)
 Theorem single_study : forall ws sched, nstudies (fst (run ps c (init_state c ws) sched)) <= 1.
 Proof.
-  intros. pose proof (InvAll_run ws sched) as HA. destruct HA as [H1 H2 H3 _].
+  intros. pose proof (InvAll_run ws sched) as HA. destruct HA as [H1 H2 H3 _ _].
   set (st := run ps c (init_state c ws) sched) in *.
   pose proof (inv_gi _ _ _ _ H1) as G1. pose proof (i2_gi _ _ _ H2) as G2.
   rewrite (gi_nst _ _ _ G1).
@@ -263,7 +269,7 @@ Theorem reports_exact : forall ws sched,
   (finished (snd st) = true -> forall i x, nth_error (trials_of st) i = Some x ->
      (In (0, t_id x) (a_fed (alg (fst st))) <-> (t_done x = true /\ t_inf x = false))).
 Proof.
-  intros. pose proof (InvAll_run ws sched) as HA. fold st in HA. destruct HA as [H1 H2 H3 _].
+  intros. pose proof (InvAll_run ws sched) as HA. fold st in HA. destruct HA as [H1 H2 H3 _ _].
   pose proof (i2_gi _ _ _ H2) as G2. pose proof (inv_gi _ _ _ _ H1) as G1.
   split.
   - apply (NoDup_count_occ pdec). intros [s k].
@@ -288,7 +294,7 @@ Qed.
    workers race for the first `sample()` *)
 Theorem setup_once : forall ws sched, a_nset (alg (fst (run ps c (init_state c ws) sched))) <= 1.
 Proof.
-  intros. pose proof (InvAll_run ws sched) as HA. destruct HA as [_ _ _ H4].
+  intros. pose proof (InvAll_run ws sched) as HA. destruct HA as [_ _ _ H4 _].
   rewrite (g4_nset _ _ (i4_gi _ _ _ H4)). destruct (a_spec _); lia.
 Qed.
 
@@ -304,7 +310,7 @@ Theorem algorithm_counters : forall ws sched,
   (finished (snd st) = true ->
      a_nf (alg (fst st)) = length (a_fed (alg (fst st))) /\ a_np (alg (fst st)) = length (trials_of st)).
 Proof.
-  intros. pose proof (InvAll_run ws sched) as HA. fold st in HA. destruct HA as [H1 _ _ H4].
+  intros. pose proof (InvAll_run ws sched) as HA. fold st in HA. destruct HA as [H1 _ _ H4 _].
   pose proof (i4_gi _ _ _ H4) as G4. unfold trials_of. fold (T (fst st)). fold (np_sum (snd st)).
   assert (Hany : a_win (alg (fst st)) = false ->
      a_nf (alg (fst st)) = length (a_fed (alg (fst st))) /\ Z.of_nat (a_np (alg (fst st))) = (Z.of_nat (length (T (fst st))) + np_sum (snd st))%Z).
@@ -325,6 +331,23 @@ Proof.
   assert (Hz : np_sum (snd st) = 0%Z).
   { unfold np_sum. apply sumz_zero. intros th Hin. destruct (In_nth_error _ _ Hin) as [t Hn]. rewrite (Hth _ _ Hn). reflexivity. }
   rewrite Hz in B. lia.
+Qed.
+
+(* C16, the value that is fed back: in EVERY reachable state the (ghost) list of reports with their rewards projects onto the list of
+   reports, and every report (trial k, reward r) is about a completed feasible trial whose final measurement is r — when the report
+   is made and for ever after (the outcome of a reported trial is never rewritten, by anybody) *)
+Theorem feedback_value : forall ws sched,
+  let st := run ps c (init_state c ws) sched in
+  map fst (a_fedv (alg (fst st))) = a_fed (alg (fst st)) /\
+  (forall s k r, In (s, k, r) (a_fedv (alg (fst st))) ->
+     exists x, nth_error (trials_of st) (k - 1) = Some x /\ t_id x = k /\ t_final x = Some r /\ t_done x = true /\ t_inf x = false).
+Proof.
+  intros. pose proof (InvAll_run ws sched) as HA. fold st in HA. destruct HA as [H1 _ _ _ H5].
+  pose proof (i5_gi _ _ _ H5) as G5. pose proof (inv_gi _ _ _ _ H1) as G1. unfold trials_of. fold (T (fst st)). split.
+  - apply (g5_fst _ G5).
+  - intros s k r Hin. destruct (g5_val _ G5 _ _ _ Hin) as [x [A [B [C1 D]]]]. exists x. repeat split; auto.
+    + pose proof (gi_fed _ _ _ G1 _ _ A) as Hf. destruct (t_done x); auto. simpl in Hf. lia.
+    + pose proof (gi_fed _ _ _ G1 _ _ A) as Hf. destruct (t_inf x); auto. rewrite andb_false_r in Hf. lia.
 Qed.
 
 End Theorems.
